@@ -438,6 +438,12 @@ impl Iterator for ClosestBucketsIter {
                 if let Some(i) = self.next_in(i) {
                     self.state = ClosestBucketsIterState::ZoomIn(i);
                     Some(i)
+                } else if i.get() == 0 {
+                    // Bucket `0` has already been yielded (the distance is `0` or
+                    // has bit `0` set), so start zooming out without yielding
+                    // it a second time.
+                    self.state = ClosestBucketsIterState::ZoomOut(i);
+                    self.next()
                 } else {
                     let i = BucketIndex(0);
                     self.state = ClosestBucketsIterState::ZoomOut(i);
